@@ -59,3 +59,43 @@ MUTANTS += [
      "            ListSdv([]).resolve(symbols),\n",
      'ProgramSdvForCommand.resolve : ensures['),
 ]
+
+# --- C08: `def TYPE NAME = VALUE` (contracts/C08c_def_types.py)
+_DEF_PARSER = 'exactly_lib/impls/instructions/multi_phase/define_symbol/parser.py'
+_TYPE_SETUP = 'exactly_lib/impls/instructions/multi_phase/define_symbol/type_setup.py'
+
+MUTANTS += [
+    ('l8-c08-def-records-another-type', 'C08', _DEF_PARSER,
+     "    return name_str, ts.value_type, value_sdv",
+     "    return name_str, type_setup.TYPE_SETUPS['string'].value_type, value_sdv",
+     '_parse : ensures[the type named is the type recorded for the symbol'),
+    ('l8-c08-def-name-not-checked', 'C08', _DEF_PARSER,
+     "    if not symbol_syntax.is_symbol_name(name_str):",
+     "    if False:",
+     '_parse : ensures[the name is NAME, a valid symbol name]'),
+    ('l8-c08-def-value-parsed-as-string', 'C08', _DEF_PARSER,
+     "    value_sdv = ts.parser.parse(fs_location_info, parser)",
+     "    value_sdv = type_setup.TYPE_SETUPS['string'].parser.parse(fs_location_info, parser)",
+     '_parse : ensures[the value is what the value parser registered for TYPE parsed'),
+    ('l8-c08-def-superfluous-arguments-accepted', 'C08', _DEF_PARSER,
+     "    parser.report_superfluous_arguments_if_not_at_eol()\n",
+     "",
+     '_parse : ensures[def TYPE NAME = VALUE: type, name, "=", value, end of line'),
+    ('l8-c08-def-list-type-parsed-as-path', 'C08', _TYPE_SETUP,
+     "type_parser.ListParser()),",
+     "type_parser.PathParser()),",
+     'every value parser class of type_parser is registered for exactly one type'),
+    ('l8-c08-def-type-setup-wrong-value-type', 'C08', _TYPE_SETUP,
+     "        self.value_type = type_info.value_type\n",
+     "        self.value_type = type_info.value_type if type_info.identifier != 'list' else syntax.ANY_TYPE_INFO_DICT["
+     "type_info.value_type].__class__ and __import__('exactly_lib.symbol.value_type').symbol.value_type.ValueType.STRING\n",
+     "def type 'list' is the value type of that name"),
+]
+
+MUTANTS += [
+    ('l8-c08-path-restriction-inverted', 'C08',
+     'exactly_lib/type_val_deps/sym_ref/w_str_rend_restrictions/value_restrictions.py',
+     "        satisfaction = is_satisfied_by(actual_relativity, self._accepted)\n        if satisfaction:",
+     "        satisfaction = is_satisfied_by(actual_relativity, self._accepted)\n        if not satisfaction:",
+     'PathAndRelativityRestriction.is_satisfied_by : ensures['),
+]
